@@ -1572,7 +1572,11 @@ func checkWhitespaceRule(r *Run, ga *GA) {
 func checkBracketLayout(r *Run, ga *GA, layout string) {
 	closer := map[string]string{"(": ")", "{": "}", "[": "]"}
 	isOptLayout := func(n *peg.Node) bool {
-		return n != nil && n.Kind == peg.Opt && len(n.Kids) == 1 && n.Kids[0].Kind == peg.RuleRef && n.Kids[0].Name == layout
+		if n == nil {
+			return false
+		}
+		is, opt := ga.layoutKind(n, layout, map[string]bool{})
+		return is && opt
 	}
 	n := 0
 	for _, rl := range ga.order {
@@ -1781,40 +1785,7 @@ func entrypointIsFirstRuleSSA(prog *Program) bool {
 		if fa.Kind != "write" || fa.Field != "entrypoint" || fa.Struct == nil || fa.Struct.Obj().Name() != "parser" || !ctorPart(prog, np, fa.Fn) {
 			continue
 		}
-		// *(&(*(&(*(&(*g).rules))[0])).name)
-		ld, isLd := fa.Val.(*ssa.UnOp)
-		if !isLd {
-			return false
-		}
-		fn, isFA := ld.X.(*ssa.FieldAddr)
-		if !isFA || fieldName(fn.X.Type(), fn.Field) != "name" {
-			return false
-		}
-		el, isEl := fn.X.(*ssa.UnOp)
-		if !isEl {
-			return false
-		}
-		ia, isIA := el.X.(*ssa.IndexAddr)
-		if !isIA {
-			return false
-		}
-		c, isC := ia.Index.(*ssa.Const)
-		if !isC || c.Value == nil || c.Value.ExactString() != "0" {
-			return false
-		}
-		rl, isRl := ia.X.(*ssa.UnOp)
-		if !isRl {
-			return false
-		}
-		rf, isRF := rl.X.(*ssa.FieldAddr)
-		if !isRF || fieldName(rf.X.Type(), rf.Field) != "rules" {
-			return false
-		}
-		gl, isGl := rf.X.(*ssa.UnOp)
-		if !isGl {
-			return false
-		}
-		if g, isG := gl.X.(*ssa.Global); !isG || g.Pkg != prog.GrammarSSA {
+		if !isFirstRuleName(prog, fa.Val, 0) {
 			return false
 		}
 		ok = true
@@ -1962,4 +1933,64 @@ func defaultEntryCondition(fn *ssa.Function, b *ssa.BasicBlock) (conditional boo
 func isStringOrInt(t types.Type) bool {
 	b, ok := t.Underlying().(*types.Basic)
 	return ok && b.Info()&(types.IsString|types.IsInteger) != 0
+}
+
+// isFirstRuleName: the value is g.rules[0].name — *(&(*(&(*(&(*g).rules))[0])).name) — or the result of a function of the
+// package, without parameters, every return of which is.
+func isFirstRuleName(prog *Program, v ssa.Value, depth int) bool {
+	if depth > 3 {
+		return false
+	}
+	if c, isCall := v.(*ssa.Call); isCall {
+		callee := c.Call.StaticCallee()
+		if callee == nil || callee.Pkg != prog.GrammarSSA || len(callee.Params) != 0 || len(callee.Blocks) == 0 {
+			return false
+		}
+		n := 0
+		for _, b := range callee.Blocks {
+			for _, ins := range b.Instrs {
+				if ret, isRet := ins.(*ssa.Return); isRet {
+					if len(ret.Results) != 1 || !isFirstRuleName(prog, ret.Results[0], depth+1) {
+						return false
+					}
+					n++
+				}
+			}
+		}
+		return n > 0
+	}
+	ld, isLd := v.(*ssa.UnOp)
+	if !isLd {
+		return false
+	}
+	fn, isFA := ld.X.(*ssa.FieldAddr)
+	if !isFA || fieldName(fn.X.Type(), fn.Field) != "name" {
+		return false
+	}
+	el, isEl := fn.X.(*ssa.UnOp)
+	if !isEl {
+		return false
+	}
+	ia, isIA := el.X.(*ssa.IndexAddr)
+	if !isIA {
+		return false
+	}
+	c, isC := ia.Index.(*ssa.Const)
+	if !isC || c.Value == nil || c.Value.ExactString() != "0" {
+		return false
+	}
+	rl, isRl := ia.X.(*ssa.UnOp)
+	if !isRl {
+		return false
+	}
+	rf, isRF := rl.X.(*ssa.FieldAddr)
+	if !isRF || fieldName(rf.X.Type(), rf.Field) != "rules" {
+		return false
+	}
+	gl, isGl := rf.X.(*ssa.UnOp)
+	if !isGl {
+		return false
+	}
+	g, isG := gl.X.(*ssa.Global)
+	return isG && g.Pkg == prog.GrammarSSA
 }
